@@ -550,3 +550,30 @@ def check(prop, tier):
     return vlib.conclude(prop, tier, level, cov, t0, viols, assumptions,
                          lambda v: {"family": "build", "property": prop, "case": v["case"],
                                     "violation": {k: v[k] for k in ("prop", "what", "l", "at", "id", "around")}})
+
+
+def replay(prop, path):
+    """Re-executes the recorded history on the real dawn and re-evaluates it with BuildMon."""
+    with open(path) as f:
+        r = json.load(f)
+    case = r.get("case")
+    if not case:
+        raise Inconclusive("replay file has no case")
+    wd = vlib.scratch("replay-")
+    binary = vlib.build_test("", wd, name="dawn")
+    with open(os.path.join(wd, "cases.ndjson"), "w") as f:
+        f.write(json.dumps({k: v for k, v in case.items() if k not in ("expect", "exact")}) + "\n")
+    env = dict(os.environ, VERIF_CASES=os.path.join(wd, "cases.ndjson"), VERIF_OUT=os.path.join(wd, "traces.ndjson"))
+    open(env["VERIF_OUT"], "w").close()
+    p = vlib.run_cmd([binary, "-test.run", "^TestVerifBuild$", "-test.timeout", "600s"], env=env, cwd=wd)
+    if p.returncode != 0:
+        raise Inconclusive("build harness failed:\n" + p.stdout[-2000:])
+    traces = [json.loads(l) for l in open(env["VERIF_OUT"])]
+    viols, n = vlib.eval_traces(SPEC, "BuildTraceP", "BuildTraceP.cfg", [to_p_line(t) for t in traces], shards=1)
+    got = [(x["prop"], x["what"]) for v in viols for x in v["viol"]]
+    print("replayed %d history; monitor reports: %s" % (len(traces), got or "no violation"))
+    if (r["violation"]["prop"], r["violation"]["what"]) in got:
+        print("VIOLATION property=%s replay=%s" % (prop, path))
+        return 1
+    print("the recorded violation did not reproduce")
+    return 0
